@@ -37,7 +37,7 @@ CHECKS["C01"] = dict(
         "enumerated on the real ProjDataInfoCylindricalNoArcCorr and every table entry / bin is compared with the model; a partition oracle runs on the implementation. "
         "The segment table construction (ProjDataInfoCTI) is modelled and compared but its well-formedness is checked per configuration, not proved in general; one class of "
         "configurations (outermost segment clipped to a single ring difference of odd parity) violates the ring-pair clause and is a listed known finding with a Lean negative witness.",
-   note=TB + "float computation of m_offset/ax_pos_num_offset replaced by exact integers; 32-bit overflow not modelled; Blocks/Generic geometries share the formulas but are not yet exercised by the harness.",
+   note=TB + "float computation of m_offset/ax_pos_num_offset replaced by exact integers; 32-bit overflow not modelled; BlocksOnCylindrical (same formulas, copied code) is exercised for two predefined scanners at span 1 without TOF/view mashing (unsupported there); Generic geometry only through the same class hierarchy.",
    design="DESIGN.md §4 C01")
 
 CHECKS["C18"] = dict(
